@@ -25,9 +25,9 @@ CLAIMS = {
  "C07": ("Theorems: cancel/move return and remove exactly the stored order, absent id changes nothing, same-price price update rejected, amend result per kind with identity fields and other orders untouched, "
          "a removed id never trades again along any history that does not re-add it, reads are the identity. Tie: E-seq/E-seq0 with all five update kinds and reads inserted at random; C07.ok judges every real update.",
          "Lean 4 proof over histories; differential (metamorphic for reads) correspondence with Lean judge", "DESIGN §6 C07"),
- "C15": ("Theorems over all admissible histories with orders at the level's price: the four counters equal (mod 2^64) the event counts an observer derives from return values; exact while they fit. "
-         "Sequential half proved; concurrent half: the statistics steps are part of the small-step model and compared event for event under the scheduler, and C15.ok is judged at quiescence of every concurrent run (no theorem over schedules yet). Tie: E-seq/E-seq0/E-conc.",
-         "Lean 4 proof by loop invariant + induction over histories; differential correspondence with Lean judge", "DESIGN §6 C15"),
+ "C15": ("Theorems: (sequential) over all admissible histories with orders at the level's price the four counters equal (mod 2^64, exactly while they fit) the event counts an observer derives from return values; (concurrent) over EVERY schedule of any number of threads and calls of the small-step model, at every point the counters equal the events so far corrected by what calls in progress recorded early or still owe (SInv), and at quiescence they equal the events exactly (C15_concurrent) — every update is one fetch_add, none is lost. "
+         "Tie: E-seq/E-seq0 (C15.ok judged after every op) and E-conc (statistics steps compared event for event under the scheduler, C15.ok judged at quiescence of every concurrent run).",
+         "Lean 4 proof by loop invariant + induction over histories, and an inductive invariant over all schedules; differential correspondence with Lean judge", "DESIGN §6 C15, §11.3"),
  "C04": ("The full property is false of the crate (two characterised deviations, recorded as known findings F1/F2 with Lean counterexamples evaluated on the model and replayed on the crate). Proved: C04_partial — every maker visit takes the head of the hand-out order; leave / replenish-requeue / add / cancel / same-price amend act on the hand-out order exactly as the property prescribes unless F1 or F2. "
          "Not proved: composition of the per-visit lemmas over a whole match call. Tie: E-seq maker sequences compared with the model, deviations classified by the driver.",
          "Lean 4 proof (refinement lemmas on the hand-out order, counterexamples by evaluation) + differential correspondence; known findings", "DESIGN §6 C04"),
